@@ -52,6 +52,9 @@ def xml(jac, ntree):
 </mujoco>"""
 
 
+NNZ = 6  # sparse Jacobian buffer of the tiny model (rows may lie anywhere inside it)
+
+
 def build(jac, ntree, njmax):
   import mujoco
 
@@ -59,7 +62,7 @@ def build(jac, ntree, njmax):
 
   mjm = mujoco.MjModel.from_xml_string(xml(jac, ntree))
   m = mjw.put_model(mjm)
-  d = mjw.make_data(mjm, nworld=1, nconmax=2, njmax=njmax)
+  d = mjw.make_data(mjm, nworld=1, nconmax=2, njmax=njmax, njmax_nnz=NNZ if jac == "sparse" else None)
   return mjm, m, d
 
 
@@ -145,14 +148,9 @@ def row_touches(S, k, t):
   return Or(And(eq_pair, eq_hit), And(is_fd, fd_hit), And(is_lj, lj_hit), And(geom_pair, con_hit), And(generic, gen_hit))
 
 
-def reference(S):
-  """-> dict with the expected island structure"""
-  n, nrow = S.ntree, S.njmax
-  nact = vmin(S.nefc, S.njmax)
-  act = [cmp("<", k, nact) for k in range(nrow)]
-  touch = [[And(act[k], row_touches(S, k, t)) for t in range(n)] for k in range(nrow)]
-  touched = [Or(*[touch[k][t] for k in range(nrow)]) for t in range(n)]
-  R = [[(True if a == b else Or(*[And(touch[k][a], touch[k][b]) for k in range(nrow)])) for b in range(n)] for a in range(n)]
+def components(n, touched, adj):
+  """labels of the connected components of the graph (adj symmetric) restricted to touched nodes, numbered by smallest node"""
+  R = [[(True if a == b else adj[a][b]) for b in range(n)] for a in range(n)]
   steps = 0
   while (1 << steps) < max(n - 1, 1):
     steps += 1
@@ -163,15 +161,33 @@ def reference(S):
   for a in range(n):
     below = count([And(root[r], *[Not(R[a][c]) for c in range(r + 1)]) for r in range(a)])
     label.append(ite(touched[a], below, -1))
-  nisland = count(root)
-  row_island = []
-  for k in range(nrow):
-    v = -1
-    for t in range(n - 1, -1, -1):
-      v = ite(touch[k][t], label[t], v)
-    row_island.append(v)
-  dof_island = [sel(label, S.dof_treeid[j]) for j in range(S.nv)]
-  return dict(act=act, touch=touch, touched=touched, label=label, nisland=nisland, row_island=row_island, dof_island=dof_island, root=root)
+  return label, count(root), root
+
+
+def reference_from_touch(n, nrow, touch):
+  touched = [Or(*[touch[k][t] for k in range(nrow)]) for t in range(n)]
+  adj = [[Or(*[And(touch[k][a], touch[k][b]) for k in range(nrow)]) for b in range(n)] for a in range(n)]
+  label, nisland, root = components(n, touched, adj)
+  return dict(touch=touch, touched=touched, adj=adj, label=label, nisland=nisland, root=root)
+
+
+def reference(S):
+  """-> dict with the expected island structure"""
+  n, nrow = S.ntree, S.njmax
+  nact = vmin(S.nefc, S.njmax)
+  act = [cmp("<", k, nact) for k in range(nrow)]
+  touch = [[And(act[k], row_touches(S, k, t)) for t in range(n)] for k in range(nrow)]
+  ref = reference_from_touch(n, nrow, touch)
+  ref["act"] = act
+  return ref
+
+
+def matrix_components(n, c):
+  """components of the graph given by a tree_tree matrix (flat row-major list, non-zero = edge)"""
+  E = [[cmp("!=", c[a * n + b], 0) for b in range(n)] for a in range(n)]
+  touched = [Or(*E[a]) for a in range(n)]
+  label, nisland, root = components(n, touched, E)
+  return E, touched, label, nisland
 
 
 def preconditions(S):
@@ -209,16 +225,105 @@ def preconditions(S):
   return P
 
 
-def spec(S):
-  """-> ordered dict name -> (goal, guard, what fails)"""
-  ref = reference(S)
-  n, nv, nrow = S.ntree, S.nv, S.njmax
-  act, label, rowisl, dofisl = ref["act"], ref["label"], ref["row_island"], ref["dof_island"]
-  nis = ref["nisland"]
+def iff(a, b):
+  if is_sym(a) or is_sym(b):
+    return core.zbool(a) == core.zbool(b)
+  return bool(a) == bool(b)
+
+
+def closure(n, E):
+  R = [[(True if a == b else E[a][b]) for b in range(n)] for a in range(n)]
+  steps = 0
+  while (1 << steps) < max(n - 1, 1):
+    steps += 1
+  for _ in range(steps):
+    R = [[Or(*[And(R[a][c], R[c][b]) for c in range(n)]) for b in range(n)] for a in range(n)]
+  return R
+
+
+def row_lemma(n, z, P, tk):
+  """one thread of _tree_edges (row k): matrix z before, P after, tk[t] = row k is active and touches tree t"""
+  EP = [[cmp("!=", P[a * n + b], 0) for b in range(n)] for a in range(n)]
+  R = closure(n, EP)
   Q = {}
   for a in range(n):
-    Q[f"label/tree{a}"] = (cmp("==", S.tree_island[a], label[a]), True, f"tree_island[{a}] is not the connected-component number (components numbered by smallest tree, untouched trees -1)")
-  Q["nisland"] = (cmp("==", S.nisland, nis), True, "nisland is not the number of components of touched trees")
+    Q[f"touched-row-nonzero/tree{a}"] = (Implies(tk[a], Or(*EP[a])), f"the row touches tree {a} but tree_tree row {a} stays zero")
+    for b in range(n):
+      x, y = P[a * n + b], z[a * n + b]
+      Q[f"monotone-01/{a}-{b}"] = (And(Or(cmp("==", x, 0), cmp("==", x, 1)), cmp(">=", x, y)), f"tree_tree[{a},{b}] leaves 0/1 or an existing edge is erased")
+      Q[f"new-edge-only-between-touched/{a}-{b}"] = (Implies(cmp("!=", x, y), And(tk[a], tk[b])), f"tree_tree[{a},{b}] is set although the row does not touch both trees")
+      if a < b:
+        Q[f"symmetric/{a}-{b}"] = (cmp("==", x, P[b * n + a]), f"tree_tree[{a},{b}] != tree_tree[{b},{a}] after the thread")
+        Q[f"touched-connected/{a}-{b}"] = (Implies(And(tk[a], tk[b]), R[a][b]), f"the row touches trees {a} and {b} but they are not connected in the tree_tree graph")
+  return Q
+
+
+def matrix_post(n, ref, c):
+  """what tree_edges guarantees about the final matrix c (composition of the row lemmas)"""
+  E = [[cmp("!=", c[a * n + b], 0) for b in range(n)] for a in range(n)]
+  R = closure(n, E)
+  Q = {}
+  for a in range(n):
+    Q[f"edges/touched/tree{a}"] = (iff(Or(*E[a]), ref["touched"][a]), f"tree_tree row {a} is non-zero iff some active constraint row touches tree {a}")
+    for b in range(n):
+      Q[f"edges/01/{a}-{b}"] = (Or(cmp("==", c[a * n + b], 0), cmp("==", c[a * n + b], 1)), f"tree_tree[{a},{b}] is not 0/1")
+      if a != b:
+        Q[f"edges/only-shared-row/{a}-{b}"] = (Implies(E[a][b], ref["adj"][a][b]), f"tree_tree[{a},{b}] != 0 although no active row touches both trees")
+      if a < b:
+        Q[f"edges/symmetric/{a}-{b}"] = (cmp("==", c[a * n + b], c[b * n + a]), f"tree_tree[{a},{b}] != tree_tree[{b},{a}]")
+        Q[f"edges/row-connected/{a}-{b}"] = (Implies(ref["adj"][a][b], R[a][b]), f"an active row touches trees {a} and {b} but they are not connected in the tree_tree graph")
+  return Q
+
+
+def sym01(n, c):
+  return And(*[Or(cmp("==", x, 0), cmp("==", x, 1)) for x in c], *[cmp("==", c[a * n + b], c[b * n + a]) for a in range(n) for b in range(a)])
+
+
+def fill_pre(n, c):
+  return sym01(n, c)
+
+
+def spec_fill(n, c, L, nis):
+  """stage B (flood_fill): labels L / count nis are the components of the matrix graph c"""
+  E, touched, label, nisland = matrix_components(n, c)
+  Q = {}
+  for a in range(n):
+    Q[f"fill/label/tree{a}"] = (cmp("==", L[a], label[a]), True, f"tree_island[{a}] is not the connected-component number of the tree_tree graph (numbered by smallest tree, isolated trees -1)")
+  Q["fill/nisland"] = (cmp("==", nis, nisland), True, "nisland is not the number of components of the tree_tree graph")
+  return Q
+
+
+def spec_glue(n, ref, c):
+  """pure lemma: a matrix satisfying tree_edges' postcondition has exactly the reference components"""
+  E, touched, label, nisland = matrix_components(n, c)
+  Q = {}
+  for a in range(n):
+    Q[f"glue/label/tree{a}"] = (cmp("==", label[a], ref["label"][a]), "lemma: components of tree_tree = components of the constraint graph")
+  Q["glue/nisland"] = (cmp("==", nisland, ref["nisland"]), "lemma: number of components")
+  return Q
+
+
+def map_lemmas(S, ref, l, nis):
+  """consequences of l = reference labels used as explicit background in stage C (each proved as glue/...)"""
+  n = S.ntree
+  out = {"glue/labels-in-range": And(cmp(">=", nis, 0), cmp("<=", nis, n), *[inrange(x, -1, nis) for x in l])}
+  for k in range(S.njmax):
+    out[f"glue/row{k}-one-island"] = And(*[Implies(ref["touch"][k][a], And(cmp(">=", l[a], 0), *[Implies(ref["touch"][k][b], cmp("==", l[a], l[b])) for b in range(a + 1, n)])) for a in range(n)])
+  return out
+
+
+def spec_map(S, ref, l, nis):
+  """stage C (compute_island_mapping) relative to the labels l / count nis it is given"""
+  n, nv, nrow = S.ntree, S.nv, S.njmax
+  act = ref["act"]
+  rowisl = []
+  for k in range(nrow):
+    v = -1
+    for t in range(n - 1, -1, -1):
+      v = ite(ref["touch"][k][t], l[t], v)
+    rowisl.append(v)
+  dofisl = [sel(l, S.dof_treeid[j]) for j in range(nv)]
+  Q = {}
   for j in range(nv):
     Q[f"dof_island/dof{j}"] = (cmp("==", S.dof_island[j], dofisl[j]), True, f"dof_island[{j}] is not the island of the dof's tree")
   for k in range(nrow):
@@ -277,7 +382,7 @@ def spec(S):
     ok = And(inrange(r, 0, nrow), sel(act, r), cmp(">=", sel(rowisl, r), 0), cmp("==", sel(S.map_efc2iefc, r), c))
     Q[f"efc2iefc.iefc2efc/iefc{c}"] = (ok, g, f"map_iefc2efc[{c}] is not an active island row mapped back to {c}")
     Q[f"efc_islandid/iefc{c}"] = (cmp("==", S.efc_islandid[c], sel(rowisl, r)), g, f"efc_islandid[{c}] is not the island of row map_iefc2efc[{c}]")
-  return Q, ref
+  return Q
 
 
 # ------------------------------------------------------------------------------------------------ views
@@ -314,6 +419,9 @@ def fill_view(S, get_in, get_out):
 
 
 def symbolic_run(ctx, jac, ntree, njmax):
+  """the real island() and compute_island_mapping() in one native run with cut points: the tree_tree matrix is replaced by
+  fresh constants before every thread of _tree_edges and before the flood fill, tree_island/nisland before the mapping.
+  Every piece is then proved for ALL inputs satisfying the proved postcondition of the previous piece."""
   from mujoco_warp._src import island
 
   mjm, m, d = build(jac, ntree, njmax)
@@ -324,14 +432,52 @@ def symbolic_run(ctx, jac, ntree, njmax):
   # pops of the DFS <= pushes <= 1 + sum_k (ntree - k) (the k-th labelled tree can push at most the ntree-k unlabelled ones)
   unroll = max(1 + nt * (nt - 1) // 2, nv, nt)
   ctx.bound(nworld=1, ntree=nt, nv=nv, nbody=int(m.nbody), njmax=njmax, jacobian=jac, unroll=unroll, note="unroll = max(1 + ntree(ntree-1)/2 DFS pops, nv sparse entries per row, ntree islands); the unwinding obligations are proved")
-  with host.HostRun(mode="exec", unroll=unroll) as hr:
+  darrs = host.arrays_of(d2)
+  cuts = {"rows": [], "nobl": {}}
+
+  def on_launch(hr, kernel, dim, args):
+    if kernel.key == "_tree_edges" and not cuts["rows"]:
+      # own thread loop (same as HostRun.launch) with the matrix replaced by fresh constants before every thread
+      cell = args[-1].ref.cell
+      cuts["z0_def"] = list(cell.d[0])
+      specs = [(a.label, a.type) for a in kernel.adj.args]
+      vals = [hr.to_arg(a, t) for a, (lab, t) in zip(args, specs)]
+      if tuple(dim) != (1, njmax):
+        raise core.Unsupported(f"_tree_edges launched with dim {dim}")
+      for k in range(njmax):
+        z = [z3.Int(f"tt{k}!{i // nt}!{i % nt}") for i in range(cell.size)]
+        cell.d[0] = list(z)
+        it = core.Interp(unroll=hr.unroll, tid=(0, k), track_access=False)
+        it.call_pyfunc(kernel.func, vals, name=kernel.key)
+        hr.nthreads += 1
+        hr.assumes.extend(it.assumes)
+        obl = [o for o in it.obl if o.kind == "unwind" or (o.kind == "bounds" and not (o.cond is True))]
+        cuts["rows"].append(dict(z=z, P=list(cell.d[0]), obl=obl))
+      cuts["c"] = [z3.Int(f"tree_tree!{i // nt}!{i % nt}") for i in range(cell.size)]
+      cell.d[0] = list(cuts["c"])
+      return "skip"
+    if kernel.key == "_flood_fill" and "c_at_fill" not in cuts:
+      cuts["c_at_fill"] = list(args[1].ref.cell.d[0])
+      cuts["nobl"]["fill0"] = len(hr.obl)
+    if kernel.key == "_init_island_arrays" and "l" not in cuts:
+      ti, ni = darrs["tree_island"].ref.cell, darrs["nisland"].ref.cell
+      cuts["L"], cuts["nisL"] = list(ti.d[0]), ni.d[0][0]
+      cuts["l"] = [z3.Int(f"label!{t}") for t in range(nt)]
+      cuts["nis"] = z3.Int("nisland!")
+      ti.d[0] = list(cuts["l"])
+      ni.d[0] = [cuts["nis"]]
+      cuts["nobl"]["fill1"] = len(hr.obl)
+
+  with host.HostRun(mode="exec", unroll=unroll, on_launch=on_launch) as hr:
     island.island(m2, d2)
     island.compute_island_mapping(m2, d2)
+  if not cuts["rows"] or "c_at_fill" not in cuts or "l" not in cuts:
+    raise core.Unsupported("island pipeline no longer launches _tree_edges / _flood_fill / _init_island_arrays: cut points not found")
   for e in hr.events:
     if e.kind == "launch":
       ctx.encode(e.kernel)
   ctx.encode(island.island, island.tree_edges, island.flood_fill, island.compute_island_mapping)
-  marrs, darrs = host.arrays_of(m2), host.arrays_of(d2)
+  marrs = host.arrays_of(m2)
 
   def cell_of(name):
     return (marrs[name[2:]] if name.startswith("m.") else darrs[name[2:]]).ref.cell
@@ -339,7 +485,7 @@ def symbolic_run(ctx, jac, ntree, njmax):
   S = View()
   view_common(S, m, d, jac)
   fill_view(S, lambda n: (cell_of(n).d0, cell_of(n).shape), lambda n: (cell_of(n).d, cell_of(n).shape))
-  return S, hr, cell_of
+  return S, hr, cell_of, cuts
 
 
 # ------------------------------------------------------------------------------------------------ replay on the real code
@@ -359,14 +505,15 @@ def _inputs_from_model(model, cell_of, S):
   return arrays
 
 
-def run_real(cfg, arrays, debug=False):
-  """real island.island + compute_island_mapping on concrete inputs -> View of python numbers"""
+def run_real(cfg, arrays, stage, cut=None, debug=False):
+  """the real stage function on concrete inputs -> (View of python numbers, tree_tree after the stage or None)"""
   if debug:
     wp.config.mode = "debug"
     wp.config.kernel_cache_dir = os.path.join(report.VERIF, ".wpcache", "replay_debug")
   from mujoco_warp._src import island
 
   mjm, m, d = build(cfg["jac"], cfg["ntree"], cfg["njmax"])
+  nt = int(m.ntree)
 
   def real(name):
     obj = m if name.startswith("m.") else d
@@ -374,13 +521,36 @@ def run_real(cfg, arrays, debug=False):
       obj = getattr(obj, part)
     return obj
 
+  arrays = json.loads(json.dumps(arrays))
+  if stage == "row":
+    # only row k stays: the other rows become generic rows with an empty Jacobian (they touch no tree, write nothing)
+    k = cut["k"]
+    ty = arrays["d.efc.type"][0]
+    for j in range(cfg["njmax"]):
+      if j != k:
+        ty[j] = LIMIT_TENDON
+        if cfg["jac"] == "sparse":
+          arrays["d.efc.J_rownnz"][0][j] = 0
+        else:
+          arrays["d.efc.J"][0][j] = [0.0] * len(arrays["d.efc.J"][0][j])
   pre = {}
   for name, vals in arrays.items():
     r = real(name)
     r.assign(np.array(vals).astype(r.numpy().dtype).reshape(r.numpy().shape))
     pre[name] = r.numpy().copy()
-  island.island(m, d)
-  island.compute_island_mapping(m, d)
+  tt = None
+  if stage == "row":
+    tta = wp.array(np.array(cut["z"], dtype=np.int32).reshape(1, nt, nt), dtype=int)
+    tta.zero_ = lambda: None  # keep the pre-filled matrix: the lemma is about one thread on an arbitrary matrix
+    island.tree_edges(m, d, tta)
+    tt = [int(x) for x in tta.numpy().reshape(-1)]
+  elif stage == "fill":
+    tta = wp.array(np.array(cut["c"], dtype=np.int32).reshape(1, nt, nt), dtype=int)
+    island.flood_fill(m, d, tta)
+  elif stage == "map":
+    d.tree_island.assign(np.array(cut["l"], dtype=np.int32).reshape(1, nt))
+    d.nisland.assign(np.array([cut["nis"]], dtype=np.int32))
+    island.compute_island_mapping(m, d)
   wp.synchronize()
   S = View()
   view_common(S, m, d, cfg["jac"])
@@ -393,7 +563,7 @@ def run_real(cfg, arrays, debug=False):
     return [[a2[i, k].item() for i in range(a2.shape[0])] for k in range(ncomp)], tuple(r.shape)
 
   fill_view(S, lambda n: flat(pre[n], n), lambda n: flat(real(n).numpy(), n))
-  return S
+  return S, tt
 
 
 def conc(x):
@@ -403,39 +573,63 @@ def conc(x):
 def run_replay(path):
   """-> (reproduced, text)"""
   sp = json.load(open(path))
-  if sp["query"].startswith(("bounds/", "unwind/")):
+  q, stage, cut = sp["query"], sp["stage"], sp.get("cut")
+  if q.split("/")[-2 if stage == "row" else 0].startswith(("bounds", "unwind")) or q.startswith(("bounds/", "unwind/")):
     import subprocess
 
-    env = dict(os.environ)
-    p = subprocess.run([sys.executable, "-m", "checks.c28", path, "--debug"], cwd=report.VERIF, env=env, capture_output=True, text=True, timeout=600)
+    p = subprocess.run([sys.executable, "-m", "checks.c28", path, "--debug"], cwd=report.VERIF, env=dict(os.environ), capture_output=True, text=True, timeout=600)
     crashed = p.returncode not in (0, 3)
-    return crashed, f"debug-build run of the real pipeline rc={p.returncode}: {(p.stdout + p.stderr)[-300:]}"
-  S = run_real(sp["config"], sp["arrays"])
-  for text, f in preconditions(S):
-    if not conc(f):
-      return False, f"replay input violates precondition: {text}"
-  Q, ref = spec(S)
-  goal, guard, what = Q[sp["query"]]
+    return crashed, f"debug-build run of the real {stage} stage rc={p.returncode}: {(p.stdout + p.stderr)[-300:]}"
+  S, tt = run_real(sp["config"], sp["arrays"], stage, cut)
+  n = S.ntree
+  if stage != "fill":
+    for text, f in preconditions(S):
+      if not conc(f):
+        return False, f"replay input violates precondition: {text}"
+  ref = reference(S)
+  if stage == "row":
+    k = cut["k"]
+    if not conc(sym01(n, cut["z"])):
+      return False, "replay matrix is not a symmetric 0/1 matrix"
+    Q = row_lemma(n, cut["z"], tt, ref["touch"][k])
+    goal, what = Q[q.split("/", 2)[2]]
+    return (not conc(goal)), f"{what}; row {k} (type {S.efc_type[k]} id {S.efc_id[k]}) touches trees {[t for t in range(n) if ref['touch'][k][t]]}; tree_tree before {cut['z']} after the real _tree_edges {tt}"
+  if stage == "fill":
+    if not conc(fill_pre(n, cut["c"])):
+      return False, "replay matrix is not a symmetric 0/1 matrix"
+    Q = spec_fill(n, cut["c"], S.tree_island, S.nisland)
+    extra = f"tree_tree = {cut['c']}; real flood_fill gives tree_island {S.tree_island} nisland {S.nisland}; components {matrix_components(n, cut['c'])[2:]}"
+  else:
+    if [int(x) for x in ref["label"]] != list(cut["l"]) or int(ref["nisland"]) != cut["nis"]:
+      return False, f"replay labels {cut['l']} are not the reference labels {ref['label']} of the rows"
+    Q = spec_map(S, ref, cut["l"], cut["nis"])
+    outs = {k: getattr(S, k.replace("efc.island", "efc_island").replace(".", "_")) for k in DATA_OUT}
+    extra = f"labels {cut['l']} nisland {cut['nis']}; real compute_island_mapping outputs: {outs}"
+  goal, guard, what = Q[q]
   if not conc(guard):
     return False, "guard of the query is false on the real outputs"
-  outs = {n: getattr(S, n.replace("efc.island", "efc_island").replace(".", "_")) for n in DATA_OUT}
-  text = f"{what}; reference: labels {ref['label']} nisland {ref['nisland']} row islands {ref['row_island']} dof islands {ref['dof_island']}; real outputs: {outs}"
-  return (not conc(goal)), text
+  return (not conc(goal)), f"{what}; {extra}"
 
 
-def replayer(ctx, cfg, cell_of, S, qname):
+def replayer(ctx, cfg, cell_of, S, cuts, qname, stage, k=None):
   def _rp(model):
     arrays = _inputs_from_model(model, cell_of, S)
     d = os.path.join(report.VERIF, "replays", PID)
     os.makedirs(d, exist_ok=True)
     path = os.path.join(d, f"{ctx.unit.replace('/', '_')}.{qname.replace('/', '_')}.json")
+    iv = lambda xs: [int(kh.mval(model, x)) for x in xs]
+    cut = {"c": iv(cuts["c"]), "l": iv(cuts["l"]), "nis": int(kh.mval(model, cuts["nis"]))}
+    if k is not None:
+      cut["k"], cut["z"] = k, iv(cuts["rows"][k]["z"])
     sp = {
       "property": PID,
       "unit": ctx.unit,
       "query": qname,
+      "stage": stage,
       "config": cfg,
+      "cut": cut,
       "arrays": arrays,
-      "how": "PYTHONPATH=/verif/.deps:/verif python -m checks.c28 <this file>: builds the tiny model (checks.c28.xml), assigns the arrays to Model/Data, runs island.island and island.compute_island_mapping, evaluates the reference",
+      "how": "cd /verif && PYTHONPATH=.deps:. python -m checks.c28 <this file>: builds the tiny model (checks.c28.xml), assigns the arrays to Model/Data, runs the real stage (row: island.tree_edges on the pre-filled matrix cut.z with only row cut.k left; fill: island.flood_fill on cut.c; map: island.compute_island_mapping on tree_island = cut.l) and evaluates the reference",
     }
     with open(path, "w") as f:
       json.dump(sp, f)
@@ -451,42 +645,108 @@ def replayer(ctx, cfg, cell_of, S, qname):
 # ------------------------------------------------------------------------------------------------ units
 
 
-def unit_islands(jac, ntree, njmax):
+def unit_islands(jac, ntree, njmax, part):
+  """part: 'graph' (tree_edges per row, composition, flood_fill, glue lemmas) | 'dofs' | 'rows' (compute_island_mapping)"""
+
   def run(ctx):
-    S, hr, cell_of = symbolic_run(ctx, jac, ntree, njmax)
+    S, hr, cell_of, cuts = symbolic_run(ctx, jac, ntree, njmax)
     cfg = {"jac": jac, "ntree": ntree, "njmax": njmax}
+    n, nrow = S.ntree, S.njmax
     pre = []
     for text, f in preconditions(S):
       ctx.assume(text)
       pre.append(core.zbool(f))
     ctx.assume("all other Data contents (outputs, scratch, uninitialised DFS stack) arbitrary", "threads of a launch run in tid order (other orders: C11)")
-    pre += [core.zbool(a) for a in hr.assumes]
-    sess = ctx.session(pre)
-    Q, ref = spec(S)
-    names = {"nefc": S.nefc}
-    for k in range(S.njmax):
+    side = [core.zbool(a) for a in hr.assumes]
+    pre += side
+    ref = reference(S)
+    c, l, nis = cuts["c"], cuts["l"], cuts["nis"]
+    names = {"nefc": S.nefc, "nisland_cut": nis}
+    for k in range(nrow):
       names[f"type{k}"], names[f"id{k}"] = S.efc_type[k], S.efc_id[k]
     for i, x in enumerate(S.body_treeid):
       names[f"body_treeid{i}"] = x
     for i, x in enumerate(S.dof_treeid):
       names[f"dof_treeid{i}"] = x
-    # reachability twins: graphs of every shape are inside the preconditions
-    ctx.reach(sess, "twin:pre-state", True)
-    ctx.reach(sess, "twin:one-island-of-all-trees", And(cmp("==", ref["nisland"], 1), *ref["touched"]))
-    ctx.reach(sess, "twin:all-trees-separate", cmp("==", ref["nisland"], S.ntree))
-    ctx.reach(sess, "twin:untouched-tree-and-static-edge", And(Not(ref["touched"][0]), ref["touched"][1], cmp("==", ref["nisland"], 1)))
-    ctx.reach(sess, "twin:chain-through-highest-tree", And(cmp("==", ref["nisland"], 1), *ref["touched"], Not(Or(*[And(ref["touch"][k][0], ref["touch"][k][1]) for k in range(S.njmax)]))))
-    for qn, (goal, guard, what) in Q.items():
-      ctx.prove(sess, qn, goal, guard, names=names, replay=replayer(ctx, cfg, cell_of, S, qn), desc=f"{jac} ntree={ntree}: {what}")
-    # own bounds of every interpreted thread (incl. the DFS stack of size ntree^2) and loop bounds, proved
-    groups = {}
-    for key, tid, o in hr.obl:
-      groups.setdefault((o.kind, key), []).append(Implies(o.guard, o.strict if o.kind == "bounds" else o.cond))
-    for (kind, key), obs in sorted(groups.items()):
-      what = "indexes an array out of range (0 <= i < dim)" if kind == "bounds" else "needs more loop iterations than the derived bound (DFS pops / islands / row entries)"
-      ctx.prove(sess, f"{kind}/{key}", And(*obs), True, names=names, replay=replayer(ctx, cfg, cell_of, S, f"{kind}/{key}"), desc=f"{jac} ntree={ntree}: a thread of {key} {what}")
+    for i, x in enumerate(c):
+      names[f"tree_tree{i // n}{i % n}"] = x
+    for i, x in enumerate(l):
+      names[f"label{i}"] = x
 
-  return (f"islands/{jac}/ntree{ntree}", run)
+    def obligations(sess, obls, tag, stage, k=None):
+      groups = {}
+      for key, o in obls:
+        groups.setdefault((o.kind, key), []).append(Implies(o.guard, o.strict if o.kind == "bounds" else o.cond))
+      for (kind, key), obs in sorted(groups.items()):
+        what = "indexes an array out of range (0 <= i < dim)" if kind == "bounds" else "needs more loop iterations than the derived bound (DFS pops / islands / row entries)"
+        qn = f"{tag}{kind}/{key}"
+        ctx.prove(sess, qn, And(*obs), True, names=names, replay=replayer(ctx, cfg, cell_of, S, cuts, qn, stage, k), desc=f"{jac} ntree={ntree}: a thread of {key} {what}")
+
+    if part != "graph":
+      return run_map(ctx, S, hr, ref, pre, cuts, names, cfg, cell_of, obligations)
+    # ---- tree_edges, one row (thread) at a time on an arbitrary symmetric 0/1 matrix z
+    sess0 = ctx.session(pre)
+    ctx.reach(sess0, "twin:pre-state", True)
+    ctx.reach(sess0, "twin:one-island-of-all-trees", And(cmp("==", ref["nisland"], 1), *ref["touched"]))
+    ctx.reach(sess0, "twin:all-trees-separate", cmp("==", ref["nisland"], n))
+    ctx.reach(sess0, "twin:untouched-tree-and-static-edge", And(Not(ref["touched"][0]), ref["touched"][1], cmp("==", ref["nisland"], 1)))
+    ctx.reach(sess0, "twin:chain-through-highest-tree", And(cmp("==", ref["nisland"], 1), *ref["touched"], Not(ref["adj"][0][1])))
+    ctx.reach(sess0, "twin:generic-row-touching-three-trees", And(*ref["touch"][0][:3]))
+    ctx.prove(sess0, "edges/matrix-zeroed", And(*[cmp("==", x, 0) for x in cuts["z0_def"]]), True, desc="tree_tree is not all zero when _tree_edges is launched")
+    ctx.prove(sess0, "edges/matrix-handed-to-flood-fill", And(*[cmp("==", x, y) for x, y in zip(cuts["c_at_fill"], c)]), True, desc="the matrix read by _flood_fill is not the one written by _tree_edges")
+    for k in range(nrow):
+      row = cuts["rows"][k]
+      sessK = ctx.session(pre + [core.zbool(sym01(n, row["z"]))])
+      if k == 0:
+        ctx.reach(sessK, "twin:row-adds-cross-edge", And(cmp("==", row["z"][1], 0), cmp("==", row["P"][1], 1)))
+      for qn, (goal, what) in row_lemma(n, row["z"], row["P"], ref["touch"][k]).items():
+        qn = f"edges/row{k}/{qn}"
+        ctx.prove(sessK, qn, goal, True, names=dict(names, **{f"z{i // n}{i % n}": x for i, x in enumerate(row["z"])}), replay=replayer(ctx, cfg, cell_of, S, cuts, qn, "row", k), desc=f"{jac} ntree={ntree}: _tree_edges thread of row {k}: {what}")
+      obligations(sessK, [("_tree_edges", o) for o in row["obl"]], f"edges/row{k}/", "row", k)
+    # ---- composition (pure): the row lemmas chained from the zero matrix give the matrix postcondition, for ANY touch relation
+    tau = [[z3.Bool(f"touch!{k}!{t}") for t in range(n)] for k in range(nrow)]
+    rtau = reference_from_touch(n, nrow, tau)
+    chain = [[0] * (n * n)] + [[z3.Int(f"m{k}!{i}") for i in range(n * n)] for k in range(1, nrow)] + [c]
+    lemmas = []
+    for k in range(nrow):
+      lemmas += [core.zbool(g) for g, _ in row_lemma(n, chain[k], chain[k + 1], tau[k]).values()]
+    sessP = ctx.session(lemmas)
+    ctx.reach(sessP, "twin:compose", And(cmp("==", rtau["nisland"], 2), cmp("==", c[1], 1)))
+    for qn, (goal, what) in matrix_post(n, rtau, c).items():
+      ctx.prove(sessP, qn, goal, True, desc=f"lemma (composition of the per-row facts): {what}")
+    # ---- flood_fill on an arbitrary symmetric 0/1 matrix c
+    ctx.assume("flood_fill: tree_tree is a symmetric 0/1 matrix (proved: edges/01, edges/symmetric)")
+    sessB = ctx.session([core.zbool(fill_pre(n, c))] + side)
+    ctx.reach(sessB, "twin:fill-path-graph", And(*[cmp("==", c[a * n + a + 1], 1) for a in range(n - 1)], *[cmp("==", c[a * n + b], 0) for a in range(n) for b in range(n) if abs(a - b) != 1]))
+    for qn, (goal, guard, what) in spec_fill(n, c, cuts["L"], cuts["nisL"]).items():
+      ctx.prove(sessB, qn, goal, guard, names=names, replay=replayer(ctx, cfg, cell_of, S, cuts, qn, "fill"), desc=f"{jac} ntree={ntree}: {what}")
+    obligations(sessB, [(key, o) for key, tid, o in hr.obl[cuts["nobl"]["fill0"] : cuts["nobl"]["fill1"]]], "fill/", "fill")
+    # ---- glue (pure): the matrix postcondition => components of c = reference components, for ANY touch relation
+    sessG = ctx.session([core.zbool(g) for g, _ in matrix_post(n, rtau, c).values()])
+    ctx.reach(sessG, "twin:glue", cmp("==", rtau["nisland"], 2))
+    for qn, (goal, what) in spec_glue(n, rtau, c).items():
+      ctx.prove(sessG, qn, goal, True, desc=what)
+
+  def run_map(ctx, S, hr, ref, pre, cuts, names, cfg, cell_of, obligations):
+    # ---- compute_island_mapping given tree_island = reference labels (what the 'graph' unit guarantees)
+    n, l, nis = S.ntree, cuts["l"], cuts["nis"]
+    ctx.assume("compute_island_mapping: tree_island / nisland are the component labels of the constraint graph (proved in the 'graph' unit: edges/*, fill/*, glue/*)")
+    exact = [cmp("==", l[a], ref["label"][a]) for a in range(n)] + [cmp("==", nis, ref["nisland"])]
+    lem = map_lemmas(S, ref, l, nis)
+    sessL = ctx.session(pre + [core.zbool(x) for x in exact])
+    for qn, f in lem.items():
+      ctx.prove(sessL, qn, f, True, names=names, desc="lemma about the reference labels")
+    sessC = ctx.session(pre + [core.zbool(x) for x in exact] + [core.zbool(f) for f in lem.values()])
+    ctx.reach(sessC, "twin:map-two-islands", cmp("==", nis, 2))
+    dof_q = ("dof_island/", "island_nv/", "island_idofadr/", "island_dofadr/", "nidof", "dof2idof", "idof2dof", "dof_islandid/")
+    for qn, (goal, guard, what) in spec_map(S, ref, l, nis).items():
+      if qn.startswith(dof_q) != (part == "dofs"):
+        continue
+      ctx.prove(sessC, qn, goal, guard, names=names, replay=replayer(ctx, cfg, cell_of, S, cuts, qn, "map"), desc=f"{jac} ntree={ntree}: {what}")
+    if part == "dofs":
+      obligations(sessC, [(key, o) for key, tid, o in hr.obl[cuts["nobl"]["fill1"] :]], "", "map")
+
+  return (f"islands/{jac}/ntree{ntree}/{part}", run)
 
 
 # ------------------------------------------------------------------------------------------------ reference validation
@@ -544,6 +804,8 @@ def validate_reference():
       if not conc(f):
         bad.append(f"validation scene {sc}: precondition '{text}' does not hold for MuJoCo's own data")
     ref = reference(S)
+    ref["row_island"] = [max([int(ref["label"][t]) for t in range(S.ntree) if ref["touch"][k][t]] + [-1]) for k in range(S.nefc)]
+    ref["dof_island"] = [int(ref["label"][t]) for t in S.dof_treeid]
     got = dict(label=[int(x) for x in mjd.tree_island], nisland=int(mjd.nisland), dof_island=[int(x) for x in mjd.dof_island], row_island=[int(x) for x in mjd.efc_island])
     for k, v in got.items():
       exp = ref[k] if k == "nisland" else [int(x) for x in ref[k]]
@@ -564,9 +826,10 @@ def unit_validate(ctx):
 
 
 def main(tier, seed, only=None):
-  units = [("validate-reference", unit_validate), unit_islands("dense", 3, 4), unit_islands("sparse", 3, 4)]
-  if tier == "thorough":
-    units += [unit_islands("dense", 4, 5), unit_islands("sparse", 4, 5)]
+  units = [("validate-reference", unit_validate)]
+  cfgs = [("dense", 3, 4), ("sparse", 3, 4)] + ([("dense", 4, 5), ("sparse", 4, 5)] if tier == "thorough" else [])
+  for jac, nt, nj in cfgs:
+    units += [unit_islands(jac, nt, nj, part) for part in ("graph", "dofs", "rows")]
   if only:
     units = [u for u in units if any(o in u[0] for o in only)]
   return report.run_check(PID, units, tier, seed)
@@ -577,8 +840,8 @@ if __name__ == "__main__":
   wp.config.quiet = True
   sp_ = json.load(open(sys.argv[1]))
   if "--debug" in sys.argv:
-    run_real(sp_["config"], sp_["arrays"], debug=True)
-    print("NOT-REPRODUCED: pipeline completed under the bounds-checked build")
+    run_real(sp_["config"], sp_["arrays"], sp_["stage"], sp_.get("cut"), debug=True)
+    print("NOT-REPRODUCED: stage completed under the bounds-checked build")
     sys.exit(3)
   ok_, text_ = run_replay(sys.argv[1])
   print(("REPRODUCED: " if ok_ else "NOT-REPRODUCED: ") + str(text_))
